@@ -308,6 +308,11 @@ def run(tier, seed, replay):
             jobs.append(("short-fields-v%d" % var, ex.submit(graph_tlc, c2, 4, 5400), u2, cr2, seed + i, 1500 if big else 0))
         lq, lu, lc = long_config(k, seed, 1 if big else 0)
         jobs.append(("max-length-fields", ex.submit(graph_tlc, lq, 8 if big else 4, 5400), lu, lc, seed, 0))
+        # authentication enabled with an EMPTY user table: nobody can present matching credentials, so every request must
+        # be refused (boundary configuration of the auth gate)
+        c3, _, cr3 = small_config(k, seed * 17 + 3, 0, seed % 6)
+        c3["Users"] = lit([])
+        jobs.append(("no-configured-users", ex.submit(graph_tlc, c3, 4, 5400), [], cr3, seed + 11, 0))
         gstates = gtrans = 0
         for name, fut, us, cr, sd, walks in jobs:
             g = fut.result()
